@@ -80,3 +80,29 @@ PROPS["C07"] = {
     "level_text": "Seeded exploration of segmentations, buffer sizes, read/write interleavings and deadline trips against a reference sender; oracles: returned bytes are always a prefix of what was sent and complete at the end, no EOF/error while the peer is connected, and promptness (the connection may not wait for the network while a completely arrived frame has unreturned plaintext), evaluated at every quiescent point.",
     "level_note": "Trusted: x/crypto primitives. One reader goroutine (as net/http uses the connection). Sampling, not proof.",
 }
+
+PROPS["C18"] = {
+    "test": "TestC18", "level": "exploration",
+    "budget": {"quick": 15, "thorough": 300},
+    "rule": "rapid-generated histories of 1..14 operations from {Set, Get, Delete, KeysWithSuffix, reopen, SaveEntity, EntityWithName, DeleteEntity, Entities} over 1..4 storage keys and 1..3 entity names (arbitrary bytes up to 100, incl. invalid UTF-8 and the empty name), values of 0..4096 seeded bytes, compared operation by operation with an in-memory map; 'reopen' drops every object and opens a new store on the same directory; non-trivial = the history overwrote a key, restarted, or stored an entity; distinct = distinct operation-kind sequences with overwrite counts",
+    "real": ["hc util.fileStorage and db.database built from /repo's working tree, on real files in a private temporary directory"],
+    "stub": ["process restart modelled as dropping every in-memory object and reopening the directory"],
+    "assumptions": ["raw storage keys are drawn from [abAB09._-xy] (the store strips ':' from file names, so keys differing only by ':' collide by design)",
+                    "restart = process restart; power loss (lost un-synced writes) is not modelled"],
+    "level_text": "Seeded exploration of storage/database histories with restarts against an in-memory reference map, operation by operation (values, not-found, listings, entity names and keys).",
+    "level_note": "Single caller (the store is not specified for concurrent use). Sampling, not proof.",
+    "technique": "deterministic simulation of histories with restart injection against a reference model; seeded search with shrinking and replay",
+}
+PROPS["C19"] = {
+    "engine": "crash", "engine_name": "crash", "level": "fault_enumeration",
+    "budget": {"quick": 0, "thorough": 0},
+    "rule": "15 scenarios (Set with old value absent / 10 / 37 / 9000 bytes x new value 1 / 37 / 5000 bytes; SaveEntity overwrite and create; the configuration rewrite of a second NewIPTransport start that bumps the version from 9 to 10); for each, a ptrace tracer records the N file-system syscalls the operation issues under the storage directory and then kills the child before the k-th, for every k = 1..N (plus the complete run); after each kill a fresh store must return the old or the new value in full for every key the operation rewrites, every other key untouched, and the pairing database must load; distinct = distinct (scenario, crash point)",
+    "real": ["hc util.fileStorage, db.database, hc.NewIPTransport + Config.save built from /repo's working tree, running as a real child process on a real directory", "the Linux kernel's file system"],
+    "stub": ["process crash = SIGKILL delivered by a ptrace tracer at the entry of the k-th file-system syscall under the directory"],
+    "assumptions": ["crash model: process kill. Completed syscalls survive (page cache), the interrupted one did not happen; power loss (lost un-synced writes) is not what C19 states and is not modelled",
+                    "a leftover temporary file of an interrupted write is not a stored key"],
+    "level_text": "Fault enumeration: every crash point between the file-system syscalls of each write scenario is tried (exhaustive over crash points of the listed scenarios), observed at the syscall boundary so that any implementation of Set is covered, including ones that hide the window inside one library call.",
+    "level_note": "Exhaustive over crash points of 15 scenarios; the scenarios themselves are a chosen sample of old/new value pairs.",
+    "technique": "deterministic crash injection at every file-system syscall boundary (ptrace), old-or-new oracle through a fresh store",
+    "design_ref": "DESIGN.md sections 3.7 and 7 (C19)",
+}
